@@ -61,9 +61,23 @@ def _kani_counterexample(sc, rec):
     if m:
         cmd += ["--cbmc-args"] + m.group(1).split()
     rc, out, secs = sh(cmd, cwd=sc.root, timeout=2400)
-    m = re.search(r"```\n(.*?)```", out, re.S)
-    if m:
-        test = m.group(1)
+    blocks = re.findall(r"```\n(.*?)```", out, re.S)
+    # Kani also emits playback tests for satisfied cover properties: pick the test that
+    # belongs to a *failed check* of this obligation (by description), else any non-cover one
+    descs = [f.get("description", "") for f in rec.get("failed_checks", [])]
+    chosen = None
+    for b in blocks:
+        m = re.search(r"/// Check for `(\w+)`: \"+(.*?)\"+\s*$", b, re.M)
+        kind, d = (m.group(1), m.group(2)) if m else ("", "")
+        if kind == "cover":
+            continue
+        if any(d and (d in x or x in d) for x in descs):
+            chosen = b
+            break
+        if chosen is None:
+            chosen = b
+    if chosen:
+        test = chosen
         rec["playback_test"] = test
         vals = re.findall(r"//\s*(.*)\n\s*vec!\[([0-9, ]*)\]", test)
         rec["counterexample"] = [{"value": v.strip(), "bytes": [int(x) for x in b.replace(" ", "").split(",") if x]} for v, b in vals]
@@ -73,7 +87,13 @@ def _native_playback(sc, rec, repo=None):
     repo = repo or sc.repo
     test = rec["playback_test"]
     name = re.search(r"fn (kani_concrete_playback_\w+)\(", test).group(1)
-    modfile = os.path.join(repo, CRATE, "src", *rec["harness"].split("::")[:-1]) + ".rs"
+    # the harness lives in <file module>::verif_kani[::inline::mods]::fn ; the test is appended
+    # to the end of the file and names the harness by its path relative to the file module
+    parts = rec["harness"].split("::")
+    vk = parts.index("verif_kani")
+    modfile = os.path.join(repo, CRATE, "src", *parts[:vk + 1]) + ".rs"
+    rel = "::".join(parts[vk + 1:])
+    test = re.sub(r"concrete_playback_run\(concrete_vals, \w+\)", "concrete_playback_run(concrete_vals, %s)" % rel, test)
     with open(modfile, "a") as fh:
         fh.write("\n" + test + "\n")
     row = rec["config"]
